@@ -124,6 +124,7 @@ Proof.
   assert (Hc := accepted_paths_consistent _ _ _ _ Hds).
   destruct Hc as [Hu Hl]; auto.
   - destruct (c_path c); auto.
+  - apply orb_false_iff in H20. destruct H20 as [H20 _]. exact H20.
 Qed.
 
 (* ================================================================== refutations: concrete witnesses *)
@@ -247,3 +248,84 @@ Lemma mapping_example :
   | _ => False
   end.
 Proof. vm_compute. repeat split. Qed.
+
+(* ================================================================== archive targets: the writers of
+   the model cannot fail, so an export that raised has written no member, and nothing is ever
+   created outside the target *)
+Lemma fold_partial_total : forall A B (step : A -> B -> res A) l a0,
+  (forall a x, exists a', step a x = ROk a') ->
+  p_exn (fold_partial step l a0) = None /\ p_ood (fold_partial step l a0) = false.
+Proof.
+  intros A B step l a0 Htot. unfold fold_partial, fold_partial2.
+  set (acc0 := {| p_exn := None; p_ood := false; p_val := a0 |}).
+  assert (H : p_exn acc0 = None /\ p_ood acc0 = false) by (split; reflexivity).
+  clearbody acc0. revert acc0 H. induction l as [|x l IH]; simpl; intros acc H; auto.
+  apply IH. destruct H as [H1 H2]. rewrite H1, H2.
+  destruct (Htot (p_val acc) x) as [a' ->]. simpl. split; reflexivity.
+Qed.
+
+Lemma export_archive_raise_clean : forall o jobs k p,
+  k <> KDir -> eo_exn (export_model o jobs k p) <> None -> art_empty (eo_art (export_model o jobs k p)) = true.
+Proof.
+  intros o jobs k p Hk He. unfold export_model in *.
+  destruct (export_paths o jobs p) as [ds| |]; simpl in *.
+  - exfalso. apply He. destruct k; [congruence| |]; simpl.
+    + apply (fold_partial_total _ _ (export_zip_step (o_asc o))). intros a [j d]. eexists. reflexivity.
+    + apply (fold_partial_total _ _ export_tar_step). intros a [j d]. eexists. reflexivity.
+  - destruct k; [congruence|reflexivity|reflexivity].
+  - congruence.
+Qed.
+
+Lemma ssort_length : forall asc l, List.length (ssort asc l) = List.length l.
+Proof.
+  intros asc l. induction l as [|x l IH]; simpl; auto. rewrite <- IH.
+  generalize (ssort asc l). intro s. induction s as [|y s IHs]; simpl; auto.
+  destruct (if asc then str_leb x y else str_leb y x); simpl; auto.
+Qed.
+
+Lemma art_eqb_empty_archive : forall a b,
+  (match a with ADir _ => False | _ => True end) ->
+  art_eqb a b = true -> art_empty a = true -> art_empty b = true.
+Proof.
+  intros a b Hk He Ha. destruct a as [f|ms|ms], b as [g|ms'|ms']; simpl in *; try discriminate; try tauto.
+  - destruct ms; [|discriminate]. destruct ms'; [reflexivity|discriminate].
+  - destruct ms; [|discriminate]. destruct ms'; [reflexivity|discriminate].
+Qed.
+
+Lemma export_model_art_kind : forall o jobs k p,
+  match k, eo_art (export_model o jobs k p) with
+  | KDir, ADir _ | KZip, AZip _ | KTar, ATar _ => True
+  | _, _ => False
+  end.
+Proof.
+  intros o jobs k p. unfold export_model. destruct (export_paths o jobs p); destruct k; simpl; auto.
+Qed.
+
+(* for zip / tar targets, agreement with the model also gives "raised => nothing written" and
+   "nothing created outside the target" *)
+Lemma model_holds_archive : forall c,
+  mismatch_C16 c = false -> c_kind c <> KDir ->
+  h_raise_clean c = true /\ h_export_contained c = true.
+Proof.
+  intros c Hm Hk. unfold mismatch_C16 in Hm. apply orb_false_iff in Hm. destruct Hm as [Hm _].
+  unfold mismatch_export in Hm.
+  repeat (apply orb_false_iff in Hm; destruct Hm as [Hm ?]).
+  rename H into Hart, H0 into Hmap, H1 into Hexn, H2 into Hout, H3 into Hsrc.
+  apply negb_false_iff in Hart, Hexn, Hout.
+  assert (Hkind : match eo_art (run_export c) with ADir _ => False | _ => True end).
+  { pose proof (export_model_art_kind (c_oracle c) (c_jobs c) (c_kind c) (c_path c)) as Hkind.
+    unfold run_export. destruct (c_kind c); [congruence| |];
+      destruct (eo_art (export_model (c_oracle c) (c_jobs c) _ (c_path c))); tauto. }
+  split.
+  - unfold h_raise_clean. destruct (x_exn c) as [e|] eqn:Ex; [simpl|reflexivity].
+    eapply art_eqb_empty_archive; [|exact Hart|].
+    + exact Hkind.
+    + apply export_archive_raise_clean; auto. unfold opt_exn_eqb in Hexn.
+      fold (run_export c). destruct (eo_exn (run_export c)); [discriminate|discriminate].
+  - unfold h_export_contained.
+    assert (Hmo : model_outside c = []).
+    { unfold model_outside. destruct (eo_art (run_export c)); [tauto|reflexivity|reflexivity]. }
+    rewrite Hmo in Hout. apply list_eqb_str_eq in Hout.
+    pose proof (ssort_length true (x_outside c)) as Hl. rewrite <- Hout in Hl. simpl in Hl.
+    destruct (x_outside c); [reflexivity|discriminate].
+Qed.
